@@ -59,18 +59,19 @@ func init() {
 
 // wlGen is the resolved shape of WLRecipe.Generate.
 type wlGen struct {
-	fn       *ssa.Function
-	recv     *ssa.Alloc
-	loops    []*core.Loop
-	capMap   *ssa.MakeMap
-	wordDraw *ssa.Call
-	oneDraw  *ssa.Call
-	coinDraw *ssa.Call
-	main     *core.Counted // assembly loop
-	tsPhi    *ssa.Phi
-	sepCall  *ssa.Call
-	appends  []*tokAppend
-	draws    []*ssa.Call
+	fn          *ssa.Function
+	recv        *ssa.Alloc
+	loops       []*core.Loop
+	capMap      *ssa.MakeMap
+	wordDraw    *ssa.Call
+	wordViaPick bool
+	oneDraw     *ssa.Call
+	coinDraw    *ssa.Call
+	main        *core.Counted // assembly loop
+	tsPhi       *ssa.Phi
+	sepCall     *ssa.Call
+	appends     []*tokAppend
+	draws       []*ssa.Call
 }
 
 type tokAppend struct {
@@ -144,11 +145,15 @@ func resolveWLGen(p *core.Program) (*wlGen, string) {
 		}
 	}
 	roles := GetRoles(p)
-	for _, s := range roles.DrawSites {
+	for _, s := range roles.ChoiceSites {
 		if s.Parent() != fn {
 			continue
 		}
 		g.draws = append(g.draws, s)
+		if _, _, isPick := roles.IsPickCall(s); isPick {
+			g.wordDraw, g.wordViaPick = s, true
+			continue
+		}
 		b := s.Call.Args[0]
 		switch {
 		case isConstU(b, 2):
@@ -233,7 +238,12 @@ func runC04(p *core.Program, r *core.Report) {
 		pos := p.InstrPos(g.wordDraw)
 		use, n := soleUse(g.wordDraw)
 		ia, isIdx := use.(*ssa.IndexAddr)
-		if n != 1 || !isIdx {
+		if g.wordViaPick {
+			coll := g.wordDraw.Call.Args[0]
+			root, path, okP := valueAccessPath(coll)
+			r.Check(okP && root == ssa.Value(g.recv) && len(path) == 2 && stableRoot(root), "R4.1", name, "word chosen by the uniform-pick helper applied to the recipe's word list", pos,
+				"helper "+core.FuncName(core.StaticCallee(g.wordDraw))+" verified (bound = len of the indexed parameter); collection "+strings.Join(path, "."))
+		} else if n != 1 || !isIdx {
 			r.Fail("R4.1", name, "word draw is used exactly once, as an index", pos, fmt.Sprintf("%d uses", n))
 		} else {
 			ok, how := eng.drawIndexAgreement(ia.X, ia.Index)
@@ -529,7 +539,7 @@ func checkTitleIffCap(p *core.Program, r *core.Report, g *wlGen, rule string) {
 		return
 	}
 	// word is the loaded element at the word draw
-	okW := false
+	okW := g.wordViaPick && word == ssa.Value(g.wordDraw)
 	if ld, ok := word.(*ssa.UnOp); ok {
 		if ia, ok := ld.X.(*ssa.IndexAddr); ok && g.wordDraw != nil && core.Strip(ia.Index) == ssa.Value(g.wordDraw) {
 			okW = true
